@@ -143,7 +143,8 @@ class Run:
             data = json.load(fh)
         return [e for e in data.get('findings', []) if e.get('property') == self.prop]
 
-    def finish(self, replay=None, quiet=False):
+    def split_known(self):
+        """(violations, known findings) of what was found so far"""
         known = [e for e in self.load_known() if e.get('status') == 'known']
         kset = {}
         for e in known:
@@ -155,6 +156,10 @@ class Run:
                 kn.append(f)
             else:
                 viol.append(f)
+        return viol, kn
+
+    def finish(self, replay=None, quiet=False):
+        viol, kn = self.split_known()
         if replay is not None:
             want = (replay['property'], replay['rule'], replay['construct'], replay['key'])
             viol = [f for f in viol if f.ident() == want and replay.get('sig', f.sig) == f.sig]
